@@ -354,6 +354,8 @@ Definition chk (v : value) (leaves : list (list string * value)) : bool :=
             flow_case(f"zuko-bounded-{width}", lambda: ZukoFlow(2, seed=1, dtype=width, data_transform=FlowTransform(
                 parameters=["w", "b"], prior_bounds={"b": (-7.0, 9.0), "w": (-9.0, 11.0)}, xp=ZukoFlow.xp, dtype=width)), {"n_epochs": 1})
             flow_case(f"flowjax-plain-{width}", lambda: FlowJax(2, key=jax.random.key(0), dtype=width), {"max_epochs": 1, "show_progress": False})
+            flow_case(f"flowjax-options-{width}", lambda: FlowJax(2, key=jax.random.key(0), dtype=width, flow_layers=2, nn_width=8),
+                      {"max_epochs": 1, "show_progress": False})
         # ---------------- (f) configuration rebuilt by resume_from_file
         from aspire import Aspire
         for nsname in NS:
